@@ -922,11 +922,160 @@ def analyse_multi(ck, fw, M, R):
                 break
 
 
+# ================================================================ configuration plumbing
+# documented defaults (resetProtocolOptions / interface docstrings) of every option the handshake reads, and a non-default value
+SERVER_OPTS = {"versions": ([8, 13], [13]), "webStatus": (True, False), "allowedOrigins": (["*"], ["http://good.com:80"]),
+               "allowNullOrigin": (True, False), "maxConnections": (0, 1), "serveFlashSocketPolicy": (False, True),
+               "trustXForwardedFor": (0, 1), "requireMaskedClientFrames": (True, False), "perMessageCompressionAccept": ("default", "any")}
+CLIENT_OPTS = {"version": (18, 10), "perMessageCompressionOffers": ([], ["deflate"]), "perMessageCompressionAccept": ("default", "any"),
+               "acceptMaskedServerFrames": (False, True), "maskClientFrames": (True, False)}
+UNRELATED = [{"failByDrop": False}, {"echoCloseCodeReason": True, "autoPingInterval": 10, "autoPingTimeout": 5}]
+MODELLED = ("versions", "webStatus", "allowedOrigins", "allowNullOrigin", "maxConnections", "serveFlashSocketPolicy")
+
+
+def config_sequences(opts):
+    seqs = [("no call", []), ("unrelated call only", [UNRELATED[0]]), ("two unrelated calls", list(UNRELATED))]
+    for o, (d, v) in opts.items():
+        seqs += [(f"{o} alone", [{o: v}]), (f"{o} then unrelated", [{o: v}, UNRELATED[0]]), (f"unrelated then {o}", [UNRELATED[1], {o: v}]),
+                 (f"{o} set and set back", [{o: v}, {o: d}]), (f"{o} set back, unrelated, set", [{o: d}, UNRELATED[0], {o: v}]),
+                 (f"{o} default named explicitly then unrelated", [{o: d}, UNRELATED[1]])]
+    allv = {o: v for o, (d, v) in opts.items()}
+    seqs += [("all in one call", [allv]), ("one call per option", [{o: v} for o, v in allv.items()]),
+             ("one call per option, reversed", [{o: v} for o, v in reversed(list(allv.items()))]),
+             ("all in one call, unrelated before and after", [UNRELATED[0], allv, UNRELATED[1]]),
+             ("one call per option with unrelated calls between", [x for o, v in allv.items() for x in ({o: v}, UNRELATED[0])])]
+    return seqs
+
+
+def intended(opts, calls):
+    """documented defaults overridden by the calls in order (a call changes exactly the options it names)"""
+    cur = {o: d for o, (d, v) in opts.items()}
+    for kw in calls:
+        for o, v in kw.items():
+            if o in cur:
+                cur[o] = v
+    return cur
+
+
+def server_probes(rng):
+    P = []
+    def probe(name, fn, others=0, raw=None):
+        spec = base_server_spec(rng)
+        if fn: fn(spec)
+        P.append((name, raw if raw is not None else render(spec), others, spec["key"]))
+    probe("origin-null", lambda s: hset(s, "Origin", "null"))
+    probe("origin-good", lambda s: hset(s, "Origin", "http://good.com"))
+    probe("origin-evil", lambda s: hset(s, "Origin", "http://evil.com"))
+    probe("version-8", lambda s: hset(s, "Sec-WebSocket-Version", "8"))
+    probe("no-upgrade", lambda s: hdel(s, "Upgrade"))
+    probe("flash-request", None, raw=b"<policy-file-request/>\x00")
+    probe("second-connection", None, others=1)
+    probe("deflate-offer", lambda s: hset(s, "Sec-WebSocket-Extensions", "permessage-deflate"))
+    return P
+
+
+def config_cases(ck):
+    rng = ck.rng("config")
+    SP = server_probes(rng)
+    SC, CC = [], []
+    for label, calls in config_sequences(SERVER_OPTS):
+        for name, data, others, key in SP:
+            SC.append(({"calls": calls, "factory": {}, "others": others, "policy": None, "accept": None, "chunks": [data.hex()]},
+                       {"label": label, "probe": name, "calls": calls, "data": data.hex()}))
+    for si, (label, calls) in enumerate(config_sequences(CLIENT_OPTS)):
+        for pi, ext in enumerate([None, "permessage-deflate"]):
+            nonce = nonce_of(ck.seed, f"cfg{si}/{pi}")
+            spec = base_client_spec(rng, nonce)
+            if ext: spec["headers"].append(["Sec-WebSocket-Extensions", ext])
+            data = render(spec)
+            CC.append(({"calls": calls, "factory": {}, "nonce": nonce.hex(), "chunks": [data.hex()]},
+                       {"label": label, "probe": "reply" + ("-deflate" if ext else ""), "calls": calls, "data": data.hex(), "ext": ext}))
+    return SC, CC
+
+
+def cupdate(kw):
+    def f(o, r):
+        return "(Some %s)" % r(kw[o]) if o in kw else "None"
+    return ("{| up_versions := %s; up_web_status := %s; up_allowed_origins := %s; up_allow_null_origin := %s; up_max_connections := %s; up_serve_flash := %s |}" % (
+        f("versions", lambda v: clist(v, cz)), f("webStatus", cbool), f("allowedOrigins", lambda v: clist(v, cstr)), f("allowNullOrigin", cbool),
+        f("maxConnections", lambda v: "%d" % v), f("serveFlashSocketPolicy", cbool)))
+
+
+def analyse_config(ck, fw, SC, CC, RS, RC, coq=True):
+    reported = set()
+    def vec_server(cfg):
+        return {"versions": cfg["versions"], "webStatus": cfg["webStatus"], "allowedOrigins": ["".join(map(chr, x)) for x in cfg["allowedOrigins"]],
+                "allowNullOrigin": cfg["allowNullOrigin"], "maxConnections": cfg["maxConnections"], "serveFlashSocketPolicy": cfg["serveFlash"],
+                "trustXForwardedFor": cfg["trustXForwardedFor"], "requireMaskedClientFrames": cfg["requireMaskedClientFrames"],
+                "perMessageCompressionAccept": cfg["perMessageCompressionAccept"]}
+    def vec_client(cfg):
+        return {"version": cfg["version"], "perMessageCompressionOffers": ["deflate" if k == "PerMessageDeflateOffer" else k for k in cfg["offer_kinds"]],
+                "perMessageCompressionAccept": cfg["perMessageCompressionAccept"], "acceptMaskedServerFrames": cfg["acceptMaskedServerFrames"],
+                "maskClientFrames": cfg["maskClientFrames"]}
+    terms, idx = [], []
+    by_seq = {}
+    for (case, meta), x in zip(SC, RS):
+        if "driver_error" in x:
+            ck.violation("harness/driver_error", x["driver_error"], {"case": case, "tb": x.get("tb")}, found_input=False); continue
+        by_seq.setdefault(meta["label"], {})[meta["probe"]] = x["outcome"]
+    for role, cases, results, opts, vec in (("server", SC, RS, SERVER_OPTS, vec_server), ("client", CC, RC, CLIENT_OPTS, vec_client)):
+        for (case, meta), x in zip(cases, results):
+            if "cfg" not in x:
+                if "driver_error" in x and role == "client":
+                    ck.violation("harness/driver_error", x["driver_error"], {"case": case, "tb": x.get("tb")}, found_input=False)
+                continue
+            ck.bump(f"{fw}/config/{role}")
+            want, got = intended(opts, meta["calls"]), vec(x["cfg"])
+            if role == "server" and x["cfg"]["allowNullOrigin_protocol"] != x["cfg"]["allowNullOrigin"]:
+                got = dict(got, allowNullOrigin=[x["cfg"]["allowNullOrigin"], x["cfg"]["allowNullOrigin_protocol"]])
+            for o in want:
+                if got[o] != want[o] and (role, o) not in reported:
+                    reported.add((role, o))
+                    rep = {"role": role, "framework": fw, "calls": meta["calls"], "sequence": meta["label"], "option": o, "effective": got[o], "configured": want[o],
+                           "case": case, "request_latin1": bytes.fromhex(meta["data"]).decode("latin-1")[:400], "outcome": x["outcome"]}
+                    if role == "server":
+                        rep["probe_outcomes"] = {k: {kk: vv for kk, vv in v.items() if kk in ("kind", "code")} for k, v in by_seq.get(meta["label"], {}).items()}
+                    ck.violation(f"config/{role}/{o}", f"[{fw}] {role} factory after setProtocolOptions calls {json.dumps(meta['calls'])} ({meta['label']}): the protocol works with "
+                                 f"{o}={got[o]!r}, configured is {want[o]!r} (documented default overridden by the calls in order)", rep, found_input=True)
+            if role == "server" and coq and x["outcome"]["kind"] != "weird":
+                base = dict(x["cfg"], versions=SERVER_OPTS["versions"][0], webStatus=True, allowedOrigins=[[42]], allowNullOrigin=True, maxConnections=0, serveFlash=False)
+                terms.append("{| fc_base := %s; fc_calls := %s; fc_policy := PNone; fc_tables := %s; fc_chunks := %s; fc_expect := %s |}" % (
+                    cscfg(base, fw), clist(meta["calls"], cupdate), ctables(x["tables"]), clist(case["chunks"], chex), csout(x["outcome"])))
+                idx.append((case, meta, x))
+            if role == "client":
+                # the request and the verdict the INTENDED options call for
+                req = bytes.fromhex(x["request"]).decode("utf8")
+                pv = 8 if want["version"] <= 12 else 13
+                ok_req = (f"Sec-WebSocket-Version: {pv}\r\n" in req) and (("Sec-WebSocket-Extensions:" in req) == bool(want["perMessageCompressionOffers"]))
+                exp = "open" if (not meta["ext"] or want["perMessageCompressionAccept"] == "any") else "failed"
+                if (not ok_req or x["outcome"]["kind"] != exp) and (role, "verdict") not in reported:
+                    reported.add((role, "verdict"))
+                    ck.violation("config/client/verdict", f"[{fw}] client configured by {json.dumps(meta['calls'])}: request / verdict ({x['outcome']['kind']}) differ from what the configured options call for ({exp})",
+                                 {"role": "client", "framework": fw, "calls": meta["calls"], "case": case, "request": req[:500], "outcome": x["outcome"]}, found_input=True)
+    if terms:
+        bad = ck.coq_cases("config_" + fw, IMPORTS, "config_case_ok", terms, ty="config_case", shard=80, timeout=900)
+        ck.bump("model_compared/config", len(terms)); ck.evaluations += len(terms)
+        seen = set()
+        for b in bad:
+            case, meta, x = idx[b]
+            if meta["probe"] in seen: continue
+            seen.add(meta["probe"])
+            rep = {"role": "server", "framework": fw, "calls": meta["calls"], "sequence": meta["label"], "case": case,
+                   "request_latin1": bytes.fromhex(meta["data"]).decode("latin-1")[:400], "impl": x["outcome"]}
+            try:
+                rep["model_on_intended_configuration"] = ck.coq_eval(IMPORTS, ["config_case_out " + terms[b]])[0][:600]
+            except Exception as ex:
+                rep["model_on_intended_configuration"] = str(ex)[-200:]
+            ck.violation(f"config/server/verdict/{meta['probe']}", f"[{fw}] after setProtocolOptions calls {json.dumps(meta['calls'])} the server answers the probe '{meta['probe']}' with "
+                         f"{x['outcome']['kind']} {x['outcome'].get('code', '')}; the model on the configured options (defaults overridden by the calls in order) says otherwise", rep, found_input=True)
+        ck.log(f"[{fw}] configuration plumbing: {len(bad)} of {len(terms)} probe verdicts differ from the model on the intended configuration")
+
+
 def shard(xs, k):
     return [xs[i::k] for i in range(k)]
 
 
-def run_drivers(ck, S, Cc, E, prims, wild, multi=()):
+def run_drivers(ck, S, Cc, E, prims, wild, multi=(), cfgS=(), cfgC=()):
     """both frameworks, each in its own processes; returns results aligned with S, Cc, E per framework"""
     nshard = 3 if ck.quick() else 7
     out = {}
@@ -938,6 +1087,9 @@ def run_drivers(ck, S, Cc, E, prims, wild, multi=()):
                    "e2e": [{k: v for k, v in e.items() if k != "meta"} for e in E[si::nshard]],
                    "prims": prims if (si == 0 and fw == "tx") else [], "wild": wild if (si == 0 and fw == "tx") else [],
                    "multi": list(multi) if si == 0 else []}
+        if si == 1 % nshard:
+            payload["server"] = payload["server"] + [c for c, _ in cfgS]
+            payload["client"] = payload["client"] + [c for c, _ in cfgC]
         try:
             r = ck.run_impl("ws_handshake.py", payload, timeout=3000)
         except Exception as e:
@@ -956,8 +1108,12 @@ def run_drivers(ck, S, Cc, E, prims, wild, multi=()):
         rs, rc, re_ = [None] * len(S), [None] * len(Cc), [None] * len(E)
         for si in range(nshard):
             r = out[(fw, si)]
-            rs[si::nshard] = r["server"]; rc[si::nshard] = r["client"]; re_[si::nshard] = r["e2e"]
+            nS, nC = len(S[si::nshard]), len(Cc[si::nshard])
+            rs[si::nshard] = r["server"][:nS]; rc[si::nshard] = r["client"][:nC]; re_[si::nshard] = r["e2e"]
+            if si == 1 % nshard:
+                cfg_out = (r["server"][nS:], r["client"][nC:])
         res[fw] = {"server": rs, "client": rc, "e2e": re_, "prims": out[(fw, 0)]["prims"], "wild": out[(fw, 0)]["wild"], "multi": out[(fw, 0)]["multi"],
+                   "cfgS": cfg_out[0], "cfgC": cfg_out[1],
                    "protocol_file": out[(fw, 0)]["protocol_file"]}
     return res
 
@@ -1260,11 +1416,12 @@ def run(ck):
     wild = wild_inputs(ck.rng("wild"), 300 if ck.quick() else 3000)
     ck.log(f"cases: server {len(S)}, client {len(Cc)}, e2e {len(E)}, prims {len(prims)}, wild {len(wild)}")
     MULTI = multi_cases(ck.rng("multi"), 60 if ck.quick() else 600)
+    CFGS, CFGC = config_cases(ck)
     # the implementation drivers (python subprocesses) run while Coq rebuilds the proofs
     box = {}
     def drive():
         try:
-            box["res"] = run_drivers(ck, S, Cc, E, prims, wild, MULTI)
+            box["res"] = run_drivers(ck, S, Cc, E, prims, wild, MULTI, CFGS, CFGC)
         except BaseException as ex:
             box["err"] = ex
     th = threading.Thread(target=drive); th.start()
@@ -1281,6 +1438,8 @@ def run(ck):
         assert os.path.realpath(RES[fw]["protocol_file"]).startswith(os.path.realpath(vlib.REPO)), RES[fw]["protocol_file"]
         analyse(ck, fw, S, Cc, E, RES[fw])
         analyse_multi(ck, fw, MULTI, RES[fw]["multi"])
+        analyse_config(ck, fw, CFGS, CFGC, RES[fw]["cfgS"], RES[fw]["cfgC"], coq=(fw == "tx" or not ck.quick()))
+        ck.evaluations += len(CFGS) + len(CFGC)
         ck.evaluations += len(S) + len(Cc) + len(E) + len(MULTI)
     report_escapes(ck, S, Cc)
     # distinct non-trivial cases: complete header block reached processHandshake
